@@ -3,6 +3,10 @@
 
 pub mod cal;
 pub mod gens;
+pub mod model;
+pub mod orule;
+pub mod oleap;
+pub mod ozone;
 pub mod run;
 pub mod props;
 pub mod known;
